@@ -131,9 +131,10 @@ def main():
                     pass
     # 0. translator: regenerate Lean data (Gen/*.lean) from /repo's current sources
     pre_errors = []
+    pre_facts = None
     if spec.get("pre"):
         try:
-            spec["pre"](vlib.REPO)
+            pre_facts = spec["pre"](vlib.REPO)
         except Exception as e:  # extraction failed closed = obligation broken
             pre_errors.append("extraction failed: %s" % str(e)[-1500:])
     # 1. proof obligations
@@ -366,6 +367,9 @@ def main():
             "memory_order_sites_checked": len(mo_obs),
             "memory_order_weakenings": mo_bad,
             "monitor_failures": len(fails),
+            "translator_step": {"ran": bool(spec.get("pre")), "ok": not pre_errors,
+                                "what": (spec["pre"].__doc__ or "").strip() if spec.get("pre") else None,
+                                "facts": str(pre_facts)[:600] if pre_facts is not None else None},
             "anchored_functions": len(anchored),
             "anchored_functions_with_logged_accesses": len(anchored) - len(funcs_unseen),
             "anchored_functions_without_logged_accesses": funcs_unseen,
